@@ -96,23 +96,39 @@ func (fx *fexec) staticCall(x *ssa.Call, f *ssa.Function, args []Val, bind []Val
 	if c != nil && c.Pure {
 		// opaque at call sites: only "same arguments, same result" is known
 		rt := vc.resolve(x.Type())
-		t := vc.pureApp(key, args, rt, func(comp, srt string) Term { return vc.heapGet(st, comp, srt) })
+		heapOf := func(comp, srt string) Term { return vc.heapGet(st, comp, srt) }
 		for i, r := range c.Requires {
 			sc := &SpecCtx{vc: vc, vars: paramVars(body, args), st: st, old: st, pkg: body.Pkg.Pkg}
 			o := vc.oblige(st, "pre@call", fmt.Sprintf("%s requires #%d: %s", c.Name, i+1, r.Src), sc.evalBool(r.X))
 			o.Pos = pos
 		}
-		v := Val{Ty: rt, T: vc.define(x.Name(), t)}
-		vc.assert(vc.typeInv(v.T, rt, st.alloc))
+		var v Val
+		if tup, isTup := rt.(*types.Tuple); isTup && tup.Len() > 1 {
+			// several results: one uninterpreted function per result (key#i)
+			v = Val{Ty: rt}
+			for i := 0; i < tup.Len(); i++ {
+				et := vc.resolve(tup.At(i).Type())
+				ct := Val{Ty: et, T: vc.define(fmt.Sprintf("%s_%d", x.Name(), i), vc.pureApp(fmt.Sprintf("%s$%d", key, i), args, et, heapOf))}
+				vc.assert(vc.typeInv(ct.T, et, st.alloc))
+				v.Tup = append(v.Tup, ct)
+			}
+		} else {
+			v = Val{Ty: rt, T: vc.define(x.Name(), vc.pureApp(key, args, rt, heapOf))}
+			vc.assert(vc.typeInv(v.T, rt, st.alloc))
+		}
 		if c.PanicsIff != nil {
 			sc := &SpecCtx{vc: vc, vars: paramVars(body, args), st: st, old: st, pkg: body.Pkg.Pkg}
 			fx.panicPoint(st, sc.evalBool(c.PanicsIff.X), "callpanic", c.Name+" panics iff "+c.PanicsIff.Src, pos)
 		}
 		// the (verified) postconditions also hold of the uninterpreted result
 		post := &SpecCtx{vc: vc, vars: paramVars(body, args), st: st, old: st, pkg: body.Pkg.Pkg, base: st.alloc}
-		for _, ns := range resultNames(body.Signature) {
+		for i, ns := range resultNames(body.Signature) {
 			for _, n := range ns {
-				post.vars[n] = v
+				if len(v.Tup) > 0 {
+					post.vars[n] = v.Tup[i]
+				} else {
+					post.vars[n] = v
+				}
 			}
 		}
 		for _, e := range c.Ensures {
@@ -630,10 +646,10 @@ func (fx *fexec) typeAssert(x *ssa.TypeAssert, st *State) Val {
 	var ok Term
 	var val Val
 	if _, isIface := at.Underlying().(*types.Interface); isIface {
-		f := vc.fresh("implements", SBool)
-		ok = and(not(eq(v.T, intLit(0))), f)
+		// whether a dynamic type implements an interface is a function of the type alone
+		ok = and(not(eq(v.T, intLit(0))), vc.implementsTerm(v.T, at))
 		val = Val{Ty: at, T: v.T}
-		vc.note("interface-to-interface assertion: satisfaction left unconstrained")
+		vc.note("interface-to-interface assertion: satisfaction is an uninterpreted function of the dynamic type")
 	} else {
 		_, unbox := vc.boxFns(at)
 		ok = and(not(eq(v.T, intLit(0))), eq(app(SInt, "typetag", v.T), vc.typeTag(at)))
@@ -648,6 +664,14 @@ func (fx *fexec) typeAssert(x *ssa.TypeAssert, st *State) Val {
 	}
 	fx.panicPoint(st, not(ok), "assert-type", "type assertion to "+typeKey(at), fx.posOf(x))
 	return val
+}
+
+// implementsTerm: "the dynamic type of interface value v implements interface type at".
+func (vc *VC) implementsTerm(v Term, at types.Type) Term {
+	vc.declUF("typetag", "(Int) Int")
+	fn := "implements_" + mangle(types.TypeString(at.Underlying(), nil))
+	vc.declUF(fn, "(Int) Bool")
+	return app(SBool, fn, app(SInt, "typetag", v))
 }
 
 func (fx *fexec) invoke(x *ssa.Call, st *State) Val {
